@@ -135,6 +135,12 @@ class Cron(addons.AddonMainTask, block.SBlock):
             nowt = nowdt.time()
             if index is None:
                 index = bisect.bisect_left(timetable, nowt) % tlen
+                # The start, a reset or a reload: alarms before 'nowt' are now considered
+                # done, but a block could have done its last recalc just before such alarm.
+                # (as promised in add_block: recalc is called also after a reload)
+                for blk in set().union(*self._alarms.values()):
+                    assert hasattr(blk, 'recalc')
+                    blk.recalc(nowdt)
             wakeup = timetable[index]
             self.log_debug("wakeup time: %s", wakeup)
 
